@@ -644,9 +644,17 @@ func (s *backendSuite) do(t []string) string {
 		started := make(chan struct{})
 		le := leader.NewLeaderElection(cb, getMetrics(), func(context.Context) { close(started) }, func() {})
 		cb.isLeader = le.IsLeader
-		if opts["f"] == "tso" {
+		if opts["fresh"] == "1" {
+			// the election record this node looks for does not exist (another key prefix before the restart, or
+			// the record was removed): the elector takes its Create path over a store that already holds data
+			db := s.inner.BeginBatchWrite()
+			db.Del([]byte(string(unhx(s.opts["prefix"])) + "/election"))
+			_ = db.Commit(ctx)
+		}
+		if opts["f"] == "tso" || opts["f"] == "tsoslow" {
 			s.c.mu.Lock()
 			s.c.tsoArmed = true
+			s.c.tsoSlow = opts["f"] == "tsoslow"
 			s.c.mu.Unlock()
 		}
 		go le.Campaign()
